@@ -13,7 +13,7 @@ import json
 import random
 
 from . import c01_lib as L
-from .c01_exec import diff_fields, mk_commit, mk_tag, rd_commit, rd_tag, set_attr
+from .c01_exec import diff_fields, impl_exc, mk_commit, mk_tag, rd_commit, rd_tag, set_attr
 
 RESERVED = {b"tree", b"parent", b"author", b"committer", b"encoding", b"mergetag", b"gpgsig"}
 MODES = [0o100644, 0o100755, 0o100664, 0o120000, 0o40000, 0o160000]
@@ -199,7 +199,7 @@ def run_fuzz(job):
                     F2 = dict(F)
                     G2 = g.commit() if kind == "commit" else g.tag()
                     attrs = L.COMMIT_ATTRS if kind == "commit" else L.TAG_ATTRS
-                    f = rng.choice(sorted(attrs))
+                    f = rng.choice(sorted(k for k, v in attrs.items() if v is not None))
                     if kind == "tag" and f in ("ttime", "ttz"):
                         f = "tagger"          # time and zone only exist together with a tagger
                     for a in attrs[f]:
@@ -266,6 +266,8 @@ def run_fuzz(job):
                         fail("dulwich/objects.py:Blob.data", "id-not-hash-of-content-after-edit", "blob", "", {"chunks": c2})
             except Exception as e:  # noqa: BLE001
                 import traceback
+                if not impl_exc(e):
+                    raise
                 fail(f"dulwich/objects.py:{kind}", f"exception:{type(e).__name__}", kind, traceback.format_exc()[-300:], {})
     return out
 
@@ -310,6 +312,8 @@ def run_gitobjs(job):
                 if o.as_raw_string() != b:
                     fail("git-made:reserialise-differs", o.as_raw_string().decode("latin-1")[:300])
             except Exception as e:  # noqa: BLE001
+                if not impl_exc(e):
+                    raise
                 fail(f"git-made:exception:{type(e).__name__}", str(e))
     return out
 
